@@ -169,6 +169,8 @@ PROPS.update({
         "modules": _DISPATCH_MODS + ["contracts.exposure"],
         "contracts": ["Pyro5.server.is_private_attribute", "Pyro5.server._get_attribute#body", "Pyro5.server._get_exposed_property_value#body",
                       "Pyro5.server._set_exposed_property_value#body", _HR],
+        "groups": [{"modules": ["specs.socket_model", "specs.pystruct", "specs.seqdict", "specs.opaque", "specs.daemon_model", "contracts.exposure", "contracts.expose_decorator"],
+                    "contracts": ["Pyro5.server.expose#class"]}],
         "harness": "replay/dispatch.py",
         "explanation": "is_private_attribute: every leading-underscore name not of dunder form and every reserved dunder name is private, nothing without a leading "
                        "underscore is.  _get_attribute (object model of attribute lookup): a name is served only if it is not private, the class attribute is not a data "
@@ -177,7 +179,7 @@ PROPS.update({
                        "is the fget/fset of the class's own property of that non-private name, flagged exposed, called on the target object, exactly once.  "
                        "dispatch part: in all five request kinds user code is reached only through _get_attribute / _get_exposed_property_value / _set_exposed_property_value "
                        "applied to the name taken from the request and the dispatched object (no other path to a call), a refused non-oneway request gets an error reply and a "
-                       "oneway request none.",
+                       "oneway request none.  Second contract group: @expose applied to a class (loop invariant over the names of the class's own __dict__) marks only members the class itself defines (or their underlying function / accessors), never a private name, then the class object itself, and nothing else.",
         "assumptions": _COMMON_ASSUME + ["object model of CPython attribute lookup (contracts/exposure.py): uninterpreted class_attribute / instance_getattr / is_data_descriptor / "
                                          "_pyroExposed flag; no __getattr__ or metaclass overrides on registered classes; validated by the native harness on generated class shapes (bounded)",
                                          "the metadata computation (_get_exposed_members, its per-class cache, 'advertise = serve') and @expose are covered by the bounded native harness only"],
